@@ -118,6 +118,16 @@ def plan_C17(chk, tier, seed):
             raise ToolError("TLC %s failed:\n%s" % (run, "\n".join(r["log"][-30:])))
         chk.add_tlc(r)
         judge_vectors(chk, cfg, r, run, ["C17"])
+    # complete exchanges over a reused buffer: histories of two exchanges, with the liveness property
+    # that every exchange terminates
+    run = "C17.MC_Session.hist"
+    r = tlc("MC_Session", scenario_cfg("all", "MC_HistCases", ["TypeOK", "ExchangeDispatch", "ExchangeAnswer", "Emit"], max_exchanges=2)
+            + "PROPERTIES StaleIndependence ExchangeTerminates\n", run, workers=12)
+    if not r["ok"]:
+        raise ToolError("TLC %s failed:\n%s" % (run, "\n".join(r["log"][-30:])))
+    log("TLC %s: %d distinct states, %d vectors, %.1fs" % (run, r["distinct"], r["n_vec"], r["wall"]))
+    chk.add_tlc(r)
+    judge_vectors(chk, "all", r, run, ["C17"])
     return ("responses whose message length L is tuned so that L-N covers -3..2 for every instantiated capacity N "
             "(1..130, 254..258, 1022..1026, 3070..3074, 64, 256, 1024, 3072, 7609), all-unset and body-less "
             "responses at N=1,2,3, planted previous contents, two-exchange histories over a reused buffer; the "
@@ -311,6 +321,9 @@ def plan_C09(chk, tier, seed):
 
 def plan_C10(chk, tier, seed):
     simple(chk, "MC_Dispatch", ["none", "all"], ["C10"], ["TypeOK", "ExactlyOneHandler", "Emit"])
+    # complete exchanges: decode -> dispatch -> handler -> encode, accepted and rejected requests
+    simple(chk, "MC_Session", ["all"] if tier == "quick" else ["none", "all"], ["C10"],
+           ["TypeOK", "DecodeTotal", "ExchangeDispatch", "ExchangeAnswer", "Emit"])
     return ("10 CTAP2 request variants (three vendor codes, both credential-management codes) x success and six "
             "distinct handler errors x authenticators with and without a large-blobs handler, 4 CTAP1 requests x "
             "success and three status words; a recording mock logs every handler invocation with the projected "
